@@ -133,17 +133,28 @@ func (*c36Verifier) VerifyCertificate(_ context.Context, cert *dsmr.ChunkCertifi
 
 func c36NodeID(p int) ids.NodeID { return ids.NodeID{0xA0, byte(p)} }
 
+// c36MakeChunk builds a chunk the way an outside caller can: encode the exported
+// fields with the linear codec and ParseChunk the result (which sets id/bytes).
+// Every parsed chunk pins a 250 KiB buffer (Chunk.init), which makes parsing the
+// dominant cost of a case; parsed chunks are therefore memoised (chunks are
+// immutable values; the key space is 3 producers x 31 expiries x 4 sizes x salt,
+// salt = ordinal among identical specs of one case, so ~100 MB at most).
+type c36Parsed struct {
+	c   dsmr.Chunk[dsmrtest.Tx]
+	raw []byte
+}
+
 var (
-	c36ChunkCache   = map[string]dsmr.Chunk[dsmrtest.Tx]{}
+	c36ChunkCache   = map[[4]int64]c36Parsed{}
 	c36ChunkCacheMu sync.Mutex
 )
 
-func c36MakeChunk(producer int, expiry int64, ntx int, salt byte) (dsmr.Chunk[dsmrtest.Tx], error) {
-	key := fmt.Sprintf("%d/%d/%d/%d", producer, expiry, ntx, salt)
+func c36MakeChunk(producer int, expiry int64, ntx int, salt byte) (dsmr.Chunk[dsmrtest.Tx], []byte, error) {
+	key := [4]int64{int64(producer), expiry, int64(ntx), int64(salt)}
 	c36ChunkCacheMu.Lock()
 	defer c36ChunkCacheMu.Unlock()
-	if c, ok := c36ChunkCache[key]; ok {
-		return c, nil
+	if e, ok := c36ChunkCache[key]; ok {
+		return e.c, e.raw, nil
 	}
 	txs := make([]dsmrtest.Tx, ntx)
 	for i := range txs {
@@ -156,16 +167,34 @@ func c36MakeChunk(producer int, expiry int64, ntx int, salt byte) (dsmr.Chunk[ds
 			Txs:      txs,
 		},
 	}
-	p := wrappers.Packer{Bytes: make([]byte, 0, 1024), MaxSize: consts.NetworkSizeLimit}
+	p := wrappers.Packer{Bytes: make([]byte, 0, 512), MaxSize: consts.NetworkSizeLimit}
 	if err := codec.LinearCodec.MarshalInto(&raw, &p); err != nil {
-		return raw, err
+		return raw, nil, err
 	}
 	c, err := dsmr.ParseChunk[dsmrtest.Tx](p.Bytes)
-	if err != nil {
-		return raw, err
+	if err == nil && len(c36ChunkCache) < 600 {
+		c36ChunkCache[key] = c36Parsed{c, p.Bytes}
 	}
-	c36ChunkCache[key] = c
-	return c, nil
+	return c, p.Bytes, err
+}
+
+// The probe: one parsed chunk whose exported Producer / Expiry fields are
+// overwritten on a copy. CheckRateLimit reads only len(bytes), Producer and
+// Expiry; ChunkVerifier.Verify reads Expiry and Producer before the signature.
+var (
+	c36ProbeOnce sync.Once
+	c36Probe     dsmr.Chunk[dsmrtest.Tx]
+	c36ProbeLen  uint64
+	c36ProbeErr  error
+)
+
+func c36GetProbe() (dsmr.Chunk[dsmrtest.Tx], uint64, error) {
+	c36ProbeOnce.Do(func() {
+		var b []byte
+		c36Probe, b, c36ProbeErr = c36MakeChunk(0, 1, 1, 0xEF)
+		c36ProbeLen = uint64(len(b))
+	})
+	return c36Probe, c36ProbeLen, c36ProbeErr
 }
 
 // chunk id and bytes are unexported; they are recovered from the public side:
@@ -193,8 +222,14 @@ type c36Inst struct {
 	caseLim uint64
 }
 
-func (in *c36Inst) open() error {
-	in.ver = &c36Verifier{real: dsmr.NewChunkVerifier[dsmrtest.Tx](in.cs, in.rules)}
+// open (re)creates the storage on the instance's database. A restart normally
+// comes with a brand-new verifier; keepVerifier (only while the finding
+// C36-verifier-min-not-restored is registered as known) keeps the old one, which
+// removes exactly the class "the new verifier was never told the persisted minimum".
+func (in *c36Inst) open(keepVerifier bool) error {
+	if in.ver == nil || !keepVerifier {
+		in.ver = &c36Verifier{real: dsmr.NewChunkVerifier[dsmrtest.Tx](in.cs, in.rules)}
+	}
 	st, err := dsmr.NewChunkStorage[dsmrtest.Tx](in.ver, in.db, in.rules)
 	if err != nil {
 		return fmt.Errorf("%s: NewChunkStorage: %w", in.name, err)
@@ -205,9 +240,9 @@ func (in *c36Inst) open() error {
 
 func c36NewInst(name string, c c36Case, cs c36ChainState) (*c36Inst, error) {
 	lim := c.Limit
-	in := &c36Inst{name: name, db: memdb.New(), limit: &lim, cs: cs, caseLim: c.Limit}
+	in := &c36Inst{name: name, db: memdb.NewWithSize(0), limit: &lim, cs: cs, caseLim: c.Limit}
 	in.rules = c36Rules{window: c.Window, limit: in.limit}
-	return in, in.open()
+	return in, in.open(false)
 }
 
 func c36ErrClass(err error) string {
@@ -231,12 +266,17 @@ func c36ErrClass(err error) string {
 }
 
 // weight returns the exact pending weight the storage accounts to producer p.
-func (in *c36Inst) weight(probe dsmr.Chunk[dsmrtest.Tx], probeLen uint64) uint64 {
+func (in *c36Inst) weight(p int) (uint64, error) {
+	probe, probeLen, err := c36GetProbe()
+	if err != nil {
+		return 0, err
+	}
+	probe.Producer = c36NodeID(p)
 	defer func() { *in.limit = in.caseLim }()
 	lo, hi := uint64(0), uint64(1)<<40 // W in [lo, hi]
 	*in.limit = probeLen + hi
 	if in.st.CheckRateLimit(probe) != nil {
-		return ^uint64(0)
+		return ^uint64(0), nil
 	}
 	for lo < hi {
 		mid := lo + (hi-lo)/2
@@ -247,20 +287,21 @@ func (in *c36Inst) weight(probe dsmr.Chunk[dsmrtest.Tx], probeLen uint64) uint64
 			lo = mid + 1
 		}
 	}
-	return lo
+	return lo, nil
 }
 
 // verifierMin returns the smallest expiry in [0, hi] the real ChunkVerifier does
 // not reject as expired, i.e. the minimum it currently holds (clamped to hi+1).
 func (in *c36Inst) verifierMin(hi int64) (int64, error) {
+	probe, _, err := c36GetProbe()
+	if err != nil {
+		return 0, err
+	}
 	lo, h := int64(0), hi+1
 	for lo < h {
 		mid := lo + (h-lo)/2
-		pc, err := c36MakeChunk(0, mid, 1, 0xEE)
-		if err != nil {
-			return 0, err
-		}
-		if errors.Is(in.ver.real.Verify(pc), validitywindow.ErrTimestampExpired) { // mid < min
+		probe.Expiry = mid
+		if errors.Is(in.ver.real.Verify(probe), validitywindow.ErrTimestampExpired) { // mid < min
 			lo = mid + 1
 		} else {
 			h = mid
@@ -278,7 +319,7 @@ type c36Obs struct {
 	certs   map[ids.ID]*dsmr.ChunkCertificate
 }
 
-func (in *c36Inst) observe(chunks []*c36Chunk, probes []dsmr.Chunk[dsmrtest.Tx], probeLens []uint64, hiMin int64) (c36Obs, error) {
+func (in *c36Inst) observe(chunks []*c36Chunk, hiMin int64) (c36Obs, error) {
 	o := c36Obs{smin: -1, certs: map[ids.ID]*dsmr.ChunkCertificate{}}
 	for _, ch := range chunks {
 		b, err := in.st.GetChunkBytes(ch.spec.Expiry, ch.id)
@@ -290,13 +331,16 @@ func (in *c36Inst) observe(chunks []*c36Chunk, probes []dsmr.Chunk[dsmrtest.Tx],
 		_, err = in.st.GetChunkBytes(ch.spec.Expiry+c36WrongExpiry, ch.id)
 		o.pending = append(o.pending, err == nil)
 	}
-	for p := 0; p < c36NumProducers; p++ {
-		o.weight[p] = in.weight(probes[p], probeLens[p])
-	}
 	var err error
+	for p := 0; p < c36NumProducers; p++ {
+		if o.weight[p], err = in.weight(p); err != nil {
+			return o, err
+		}
+	}
 	if o.vmin, err = in.verifierMin(hiMin); err != nil {
 		return o, err
 	}
+	// optional verif-tagged accessor (fixes/H-dsmr-minexpiry.diff); absent => -1 on both sides
 	if acc, ok := any(in.st).(interface{ MinimumExpiry() int64 }); ok {
 		o.smin = acc.MinimumExpiry()
 	}
@@ -326,34 +370,23 @@ func c36Run(c c36Case, st *vstat.Stats) error {
 	}
 	chunks := make([]*c36Chunk, len(c.Chunks))
 	for i, sp := range c.Chunks {
-		ch, err := c36MakeChunk(sp.Producer, sp.Expiry, sp.NTx, byte(i+1))
+		salt := byte(1)
+		for _, prev := range c.Chunks[:i] {
+			if prev == sp {
+				salt++
+			}
+		}
+		ch, raw, err := c36MakeChunk(sp.Producer, sp.Expiry, sp.NTx, salt)
 		if err != nil {
 			return fmt.Errorf("harness: chunk %d: %w", i, err)
 		}
-		p := wrappers.Packer{Bytes: make([]byte, 0, 1024), MaxSize: consts.NetworkSizeLimit}
-		if err := codec.LinearCodec.MarshalInto(&ch, &p); err != nil {
-			return fmt.Errorf("harness: chunk %d: %w", i, err)
-		}
-		id := idOf(p.Bytes)
+		id := idOf(raw)
 		ref := dsmr.ChunkReference{ChunkID: id, Producer: ch.Producer, Expiry: ch.Expiry}
 		chunks[i] = &c36Chunk{
-			spec: sp, c: ch, id: id, bytes: p.Bytes,
+			spec: sp, c: ch, id: id, bytes: raw,
 			cert: &dsmr.ChunkCertificate{ChunkReference: ref, Signature: &warp.BitSetSignature{}},
 			bad:  &dsmr.ChunkCertificate{ChunkReference: ref, Signature: &warp.BitSetSignature{Signers: []byte{0xff}}},
 		}
-	}
-	probes := make([]dsmr.Chunk[dsmrtest.Tx], c36NumProducers)
-	probeLens := make([]uint64, c36NumProducers)
-	for p := range probes {
-		pc, err := c36MakeChunk(p, 1, 1, 0xEF)
-		if err != nil {
-			return err
-		}
-		pk := wrappers.Packer{Bytes: make([]byte, 0, 1024), MaxSize: consts.NetworkSizeLimit}
-		if err := codec.LinearCodec.MarshalInto(&pc, &pk); err != nil {
-			return err
-		}
-		probes[p], probeLens[p] = pc, uint64(len(pk.Bytes))
 	}
 
 	a, err := c36NewInst("A(no reopen)", c, cs)
@@ -380,11 +413,11 @@ func c36Run(c c36Case, st *vstat.Stats) error {
 	}
 
 	compare := func(when string) error {
-		oa, err := a.observe(chunks, probes, probeLens, hiMin)
+		oa, err := a.observe(chunks, hiMin)
 		if err != nil {
 			return err
 		}
-		ob, err := b.observe(chunks, probes, probeLens, hiMin)
+		ob, err := b.observe(chunks, hiMin)
 		if err != nil {
 			return err
 		}
@@ -405,14 +438,7 @@ func c36Run(c c36Case, st *vstat.Stats) error {
 			return fmt.Errorf("%s: stored minimum expiry: without reopen %d, with reopen %d (MinimumExpiry accessor)", when, oa.smin, ob.smin)
 		}
 		if oa.vmin != ob.vmin {
-			if st.Known(c36FindingMin) {
-				if !minExcluded {
-					st.Exclude(c36FindingMin)
-					minExcluded = true
-				}
-			} else {
-				return fmt.Errorf("%s: minimum expiry enforced by the storage's ChunkVerifier: without reopen %d, with reopen %d (NewChunkStorage reads the persisted minimum but never hands it to its verifier)", when, oa.vmin, ob.vmin)
-			}
+			return fmt.Errorf("%s: minimum expiry enforced by the storage's ChunkVerifier: without reopen %d, with reopen %d (smallest expiry the real ChunkVerifier does not reject as expired; the verifier of a reopened storage must have been told the persisted minimum)", when, oa.vmin, ob.vmin)
 		}
 		for id, cert := range ob.certs {
 			if oa.certs[id] != cert {
@@ -431,8 +457,12 @@ func c36Run(c c36Case, st *vstat.Stats) error {
 	}
 
 	reopen := func(when string) error {
-		if err := b.open(); err != nil {
+		if err := b.open(st.Known(c36FindingMin)); err != nil {
 			return err
+		}
+		if st.Known(c36FindingMin) && curMin > 0 && !minExcluded {
+			st.Exclude(c36FindingMin)
+			minExcluded = true
 		}
 		reopens++
 		certFresh = map[ids.ID]bool{}
@@ -616,6 +646,11 @@ func c36Run(c c36Case, st *vstat.Stats) error {
 	add(remoteRejected > 0, "remote-rejected-by-window")
 	add(readdAccepted > 0, "readd-of-accepted")
 	add(curMin > 0, "min-advanced")
+	if _, ok := any(a.st).(interface{ MinimumExpiry() int64 }); ok {
+		st.SetExtra("stored_minimum_accessor", "present: ChunkStorage.MinimumExpiry compared directly")
+	} else {
+		st.SetExtra("stored_minimum_accessor", "absent: the stored minimum is observed only through the minimum the storage hands its verifier")
+	}
 	raw, _ := json.Marshal(c)
 	st.Case(ntReopen, string(raw), labels...)
 	st.Sample(ntReopen, map[string]any{"chunks": len(c.Chunks), "ops": opsString(c.Ops), "window": c.Window, "limit": c.Limit, "reopens": reopens, "labels": strings.Join(labels, ",")})
@@ -654,7 +689,7 @@ func opsString(ops []c36Op) string {
 func c36Gen(rt *rapid.T) c36Case {
 	c := c36Case{
 		Window: rapid.SampledFrom([]int64{3, 10, 40, 1000}).Draw(rt, "window"),
-		Limit:  rapid.SampledFrom([]uint64{300, 600, 1200, 1 << 30}).Draw(rt, "limit"),
+		Limit:  rapid.SampledFrom([]uint64{500, 900, 1500, 1 << 30}).Draw(rt, "limit"),
 	}
 	n := rapid.IntRange(1, 7).Draw(rt, "nchunks")
 	for i := 0; i < n; i++ {
@@ -664,10 +699,10 @@ func c36Gen(rt *rapid.T) c36Case {
 			NTx:      rapid.IntRange(1, 4).Draw(rt, "ntx"),
 		})
 	}
-	nops := rapid.IntRange(1, 14).Draw(rt, "nops")
+	nops := rapid.IntRange(1, 16).Draw(rt, "nops")
 	for i := 0; i < nops; i++ {
 		kind := rapid.SampledFrom([]string{
-			"local", "local", "local", "remote", "remote", "cert",
+			"local", "local", "local", "local", "remote", "remote", "cert",
 			"setmin", "setmin", "setmin", "reopen", "reopen",
 		}).Draw(rt, "kind")
 		op := c36Op{Kind: kind}
@@ -681,8 +716,8 @@ func c36Gen(rt *rapid.T) c36Case {
 			op.Chunk = rapid.IntRange(0, n-1).Draw(rt, "chunk")
 			op.Bad = rapid.IntRange(0, 4).Draw(rt, "bad") == 0
 		case "setmin":
-			op.Delta = rapid.Int64Range(1, 6).Draw(rt, "delta")
-			op.Save = rapid.SliceOfN(rapid.IntRange(0, 6), 0, 3).Draw(rt, "save")
+			op.Delta = rapid.OneOf(rapid.Int64Range(1, 2), rapid.Int64Range(1, 6)).Draw(rt, "delta")
+			op.Save = rapid.OneOf(rapid.SliceOfN(rapid.IntRange(0, 6), 1, 3), rapid.SliceOfN(rapid.IntRange(0, 6), 0, 1)).Draw(rt, "save")
 		}
 		c.Ops = append(c.Ops, op)
 	}
